@@ -14,24 +14,37 @@ RULE = ("one cell of the product decorator {asynq, asynq(pure), async_proxy, asy
         "methods} x binding {function, via instance, via class with explicit instance, via subclass instance, classmethod via "
         "class / instance / subclass, staticmethod via class / instance} x argument pattern {positional, keyword, all-keyword, "
         "default omitted, keyword-only, body raises; malformed: too many, unknown keyword, missing, duplicate, keyword-only "
-        "given positionally, instance omitted} x body kind {plain, generator on ConstFuture, generator on another task, "
-        "batch-blocking DebugBatchItem}; the quick tier enumerates the whole product with canonical values, the thorough tier "
-        "adds value re-assignments and a random argument-list stream; every cell is distinct and non-trivial (DESIGN 5.22)")
+        "given positionally, instance omitted} x body shape {plain, generator on ConstFuture, generator on another task, "
+        "batch-blocking DebugBatchItem, plain / generator body that looks at get_active_task()} x return style {return v, "
+        "result(v); return} x calling context {top level, inside a generator task, inside a plain-bodied task, inside a "
+        "synchronously called nested task}; the quick tier enumerates decorator x binding x argument pattern x the four "
+        "original shapes at top level, and decorator x binding x shape x return style x context for the default and the "
+        "raising call; the thorough tier enumerates the whole product and adds value re-assignments and a random stream; "
+        "every cell is distinct and non-trivial (DESIGN 5.22)")
 TRUSTED = ["Python's own attribute lookup (function/classmethod/staticmethod/bound-method objects) is modelled (py_get), not verified",
            "the theorems are about a table-like model of the descriptor protocol; the exhaustive correspondence over the full "
            "product carries most of the weight"]
 ASSUMPTIONS = ["each calling convention runs on a freshly built callable (caches and deduplication never suppress a body)",
                "for callables without .asynq (pure) the direct call is the asynchronous form; there is no synchronous form",
                "decorator order for classmethod/staticmethod as in asynq/tests/test_decorators.py (@asynq() outside @classmethod)",
-               "asyncio mode (fn.asyncio) is C15's subject and is off here"]
-EXPLANATION = ("Coq: conventions_agree / receiver_once / sync_fn_runs_sync / classify_consistent for all decorator x binding "
-               "cells and all argument lists; correspondence: exhaustive product through the real decorators in both builds")
+               "asyncio mode (fn.asyncio) is C15's subject and is off here",
+               "sync_fn is an ordinary synchronous function: plain body ending in return (result() inside a sync_fn is outside the statement)",
+               "calling contexts are tasks of the default AsyncTask class driven by a synchronous call at top level; the forms are "
+               "executed in the body of that task, one form per freshly built callable"]
+EXPLANATION = ("Coq: conventions_agree / receiver_once / sync_fn_runs_sync / classify_consistent / context_independent / caller_intact / "
+               "body_in_own_task / result_is_return for all decorator x binding cells, argument lists, body kinds and calling contexts; "
+               "correspondence: exhaustive product through the real decorators in both builds")
 
 DECOS = ["DAsynq", "DPure", "DProxy", "DProxyPure", "DPair", "DWrap", "DDedup", "DRetry", "DLru", "DCpi"]
 BINDINGS = ["BFunc", "BInst", "BClass", "BSub", "BCmClass", "BCmInst", "BCmSub", "BSmClass", "BSmInst"]
-BODYKINDS = ["BPlain", "BGenConst", "BGenTask", "BBatch"]
+SHAPES = ["BPlain", "BGenConst", "BGenTask", "BBatch", "BPlainOwn", "BGenOwn"]
+OLD_SHAPES = SHAPES[:4]
+RETSTYLES = ["RetReturn", "RetResult"]
+CTXS = ["CTop", "CGen", "CPlain", "CNested"]
+BODYKINDS = [(sh, rs) for sh in SHAPES for rs in RETSTYLES]
+OWN_CODES = {"BPlainOwn": (8, 9, 10), "BGenOwn": (11, 12, 13)}      # own task / another task / no task
 FORMS = ["Sync", "AsynqValue", "YieldAsynq", "AsyncCall", "YieldDirect", "ViaGetAsync", "ViaGetAsyncOrSync"]
-EXTRA = {"BPlain": 0, "BGenConst": 5, "BGenTask": 6, "BBatch": 7}
+EXTRA = {"BPlain": 0, "BGenConst": 5, "BGenTask": 6, "BBatch": 7, "BPlainOwn": 8, "BGenOwn": 11}
 EXPECTED_RECV = {"BFunc": None, "BInst": "RObj", "BClass": "RObj", "BSub": "RSubObj", "BCmClass": "RCls", "BCmInst": "RCls",
                  "BCmSub": "RSubCls", "BSmClass": None, "BSmInst": None}
 
@@ -63,8 +76,10 @@ PATTERNS = {
 KN = {"a": "Ka", "b": "Kb", "k": "Kk", "z": "Kz", "R": "Ka"}
 
 
-def mk(d, b, explicit, pos, kw, bk, meta):
-    args = [d, b, "true" if explicit else "false", list(pos), [{"": [n, v]} for n, v in kw], bk]
+def mk(d, b, explicit, pos, kw, bk, meta, ctx="CTop"):
+    if isinstance(bk, str):
+        bk = (bk, "RetReturn")
+    args = [d, b, "true" if explicit else "false", list(pos), [{"": [n, v]} for n, v in kw], {"BK": list(bk)}, ctx]
     return {"args": args, "tree": args, "meta": meta}
 
 
@@ -78,30 +93,54 @@ def instantiate(pat, vals):
 CANON_VALS = {"a": 1, "b": 2, "c": 4, "k": 3, "z": 5}
 
 
-def product(vals_of, tag):
+def product(vals_of, tag, patterns=None, bodykinds=None, ctxs=("CTop",), skip=None, omitted=True):
+    """decorator x binding x patterns x bodykinds x ctxs (minus what `skip` says is enumerated elsewhere)."""
     out = []
+    patterns = list(PATTERNS) if patterns is None else patterns
+    bodykinds = [(sh, "RetReturn") for sh in OLD_SHAPES] if bodykinds is None else bodykinds
     for d in DECOS:
         for b in BINDINGS:
             if not valid(d, b):
                 continue
-            for pat in PATTERNS:
-                for bk in BODYKINDS:
-                    pos, kw = instantiate(pat, vals_of())
-                    out.append(mk(d, b, True, pos, kw, bk, {"pattern": pat, "malformed": PATTERNS[pat][2], "stream": tag}))
-            if b == "BClass":       # instance omitted: the first value is taken as self
-                for bk in BODYKINDS:
-                    pos, kw = instantiate("positional", vals_of())
-                    out.append(mk(d, b, False, [7] + pos, kw, bk, {"pattern": "instance-omitted", "malformed": True, "stream": tag}))
+            for pat in patterns:
+                for bk in bodykinds:
+                    for cx in ctxs:
+                        if skip and skip(pat, bk, cx):
+                            continue
+                        pos, kw = instantiate(pat, vals_of())
+                        out.append(mk(d, b, True, pos, kw, bk, {"pattern": pat, "malformed": PATTERNS[pat][2], "stream": tag}, cx))
+            if b == "BClass" and omitted:       # instance omitted: the first value is taken as self
+                for bk in bodykinds:
+                    for cx in ctxs:
+                        if skip and skip("instance-omitted", bk, cx):
+                            continue
+                        pos, kw = instantiate("positional", vals_of())
+                        out.append(mk(d, b, False, [7] + pos, kw, bk,
+                                      {"pattern": "instance-omitted", "malformed": True, "stream": tag}, cx))
     return out
 
 
+QUICK_CTX_PATTERNS = ["default", "raises"]
+
+
+def _in_base(pat, bk, cx):
+    return cx == "CTop" and bk[1] == "RetReturn" and bk[0] in OLD_SHAPES
+
+
 def gen_cases(rng, tier):
+    # the original product: every argument pattern, at top level, bodies ending in `return v`
     cs = product(lambda: CANON_VALS, "product")
+    if tier == "quick":
+        # the calling-context / return-style / own-task dimensions, exhaustively, for the call that binds and the one that raises
+        cs += product(lambda: CANON_VALS, "product-context", QUICK_CTX_PATTERNS, BODYKINDS, CTXS, _in_base, omitted=False)
+    else:
+        cs += product(lambda: CANON_VALS, "product-context", None, BODYKINDS, CTXS, _in_base)
     if tier != "quick":
         def rv():
             return {x: rng.choice([v for v in range(-3, 60)]) for x in "abckz"}
         for _ in range(3):
             cs += product(rv, "product-revalued")
+        cs += product(rv, "product-context-revalued", ["positional", "keyword-only", "raises-keyword", "too-many"], BODYKINDS, CTXS, _in_base)
         cells = [(d, b) for d in DECOS for b in BINDINGS if valid(d, b)]
         for _ in range(4000):           # random argument lists: mostly malformed
             d, b = rng.choice(cells)
@@ -110,13 +149,14 @@ def gen_cases(rng, tier):
             rng.shuffle(names)
             kw = [(n, rng.choice([0, 1, 2, 50, 99])) for n in names]
             explicit = not (b == "BClass" and rng.random() < 0.2)
-            cs.append(mk(d, b, explicit, pos, kw, rng.choice(BODYKINDS), {"pattern": "random", "malformed": None, "stream": "random"}))
+            cs.append(mk(d, b, explicit, pos, kw, rng.choice(BODYKINDS), {"pattern": "random", "malformed": None, "stream": "random"},
+                         rng.choice(CTXS)))
     return cs
 
 
-def _corp(d, b, pat, bk):
+def _corp(d, b, pat, bk, ctx="CTop"):
     pos, kw = instantiate(pat, CANON_VALS)
-    return mk(d, b, True, pos, kw, bk, {"pattern": pat, "malformed": PATTERNS[pat][2], "stream": "corpus", "corpus": True})
+    return mk(d, b, True, pos, kw, bk, {"pattern": pat, "malformed": PATTERNS[pat][2], "stream": "corpus", "corpus": True}, ctx)
 
 
 # the diagonal asynq's own suite visits, plus the cell of the known finding
@@ -131,6 +171,10 @@ CORPUS = [
     _corp("DWrap", "BCmClass", "default", "BPlain"),
     _corp("DProxy", "BCmInst", "positional", "BGenTask"),
     _corp("DProxyPure", "BInst", "default", "BPlain"),
+    # a synchronous call made from inside a running task; the body needs a task of its own
+    _corp("DAsynq", "BFunc", "default", ("BPlain", "RetResult"), "CGen"),         # result(v); return  in a plain body
+    _corp("DAsynq", "BInst", "default", ("BPlainOwn", "RetReturn"), "CPlain"),    # the body looks at get_active_task()
+    _corp("DPair", "BCmClass", "keyword", ("BGenOwn", "RetResult"), "CNested"),
 ]
 
 
@@ -154,7 +198,7 @@ def compare(c, m, io):
         if_, ic = io["out"][""]
         for name, a, b in zip(FORMS, mf, if_):
             if a != b:
-                return "form %s: model %s, implementation %s" % (name, json.dumps(a), json.dumps(b))
+                return "form %s in %s: model %s, implementation %s" % (name, c["args"][6], json.dumps(a), json.dumps(b))
         if mc != ic:
             return "classification (is_async_fn, is_pure_async_fn, has_async_fn, get_async_fn, get_async_or_sync_fn): model %s, implementation %s" % (
                 json.dumps(mc), json.dumps(ic))
@@ -164,13 +208,23 @@ def compare(c, m, io):
 
 
 def distribution(cases):
-    d = {"exhaustive": True, "decorator": {}, "binding": {}, "pattern": {}, "body": {}, "stream": {}, "malformed": 0,
+    d = {"decorator": {}, "binding": {}, "pattern": {}, "body": {}, "stream": {}, "malformed": 0,
          "cells_decorator_x_binding": len({(c["args"][0], c["args"][1]) for c in cases}),
-         "cells_full_product": len({(c["args"][0], c["args"][1], c["meta"]["pattern"], c["args"][5]) for c in cases
-                                    if c["meta"].get("stream") != "random"})}
+         "shape": {}, "return_style": {}, "context": {},
+         "cells_full_product": len({(c["args"][0], c["args"][1], c["meta"]["pattern"], tuple(c["args"][5]["BK"]), c["args"][6])
+                                    for c in cases if c["meta"].get("stream") != "random"}),
+         "cells_decorator_x_binding_x_bodykind_x_context": len({(c["args"][0], c["args"][1], tuple(c["args"][5]["BK"]), c["args"][6])
+                                                               for c in cases})}
+    ncell = sum(1 for x in DECOS for y in BINDINGS if valid(x, y))
+    full = (ncell * len(PATTERNS) + len(DECOS)) * len(BODYKINDS) * len(CTXS)        # + instance-omitted for BClass
+    d["full_product_size"] = full
+    d["exhaustive"] = d["cells_full_product"] >= full
+    d["exhaustive_subspaces"] = ["decorator x binding x argument pattern x original shapes, return v, top level",
+                                 "decorator x binding x body shape x return style x calling context (default and raising call)"]
     for c in cases:
         a = c["args"]
-        for key, v in (("decorator", a[0]), ("binding", a[1]), ("pattern", c["meta"]["pattern"]), ("body", a[5]),
+        for key, v in (("decorator", a[0]), ("binding", a[1]), ("pattern", c["meta"]["pattern"]), ("body", "/".join(a[5]["BK"])),
+                       ("shape", a[5]["BK"][0]), ("return_style", a[5]["BK"][1]), ("context", a[6]),
                        ("stream", c["meta"].get("stream"))):
             d[key][v] = d[key].get(v, 0) + 1
         d["malformed"] += 1 if c["meta"].get("malformed") else 0
@@ -244,19 +298,38 @@ def _bad_value(res):
 
 
 def monitors(c, io, build):
-    d, b, explicit, pos, kwl, bk = c["args"]
+    d, b, explicit, pos, kwl, bkt, ctx = c["args"]
+    bk, rs = bkt["BK"]
     explicit = explicit == "true"
     kw = [tuple(x[""]) for x in kwl]
     forms, cl = io["out"][""]
     R = {}
+    CALLER = {}
     for name, f in zip(FORMS, forms):
-        st, calls, res = f[""]
+        CALLER[name], inner = f[""]
+        st, calls, res = inner[""]
         R[name] = (st, calls, res)
     is_async, is_pure, has_async, gk, hk = cl[""]
     fs = []
+    where = "" if ctx == "CTop" else ":in-" + ctx       # top-level sites keep their historical names
 
-    def hit(clause, site, msg):
-        fs.append(dict(clause=clause, site=site, msg="%s [%s %s %s pos=%s kw=%s]" % (msg, d, b, bk, pos, kw)))
+    def hit(clause, site, msg, ctx_free=False):
+        fs.append(dict(clause=clause, site=site + ("" if ctx_free else where),
+                       msg="%s [%s %s %s/%s %s pos=%s kw=%s]" % (msg, d, b, bk, rs, ctx, pos, kw)))
+
+    # (0) the call hands its outcome to the caller: a form executed inside a running task must not finish THAT task
+    #     with the callee's value, and no AsyncTaskResult may come out of a form as an exception
+    want_caller = "CallerNone" if ctx == "CTop" else "CallerOwn"
+    for n in FORMS:
+        if CALLER[n] == "CallerHijacked":
+            hit("same-outcome", "%s:%s:%s:calling-task-finished-with-callee-value" % (d, n, ctx),
+                "%s was executed inside a running task (%s) and that task came back with %s instead of going on with the "
+                "call's outcome" % (n, ctx, json.dumps(R[n][2])), ctx_free=True)
+        elif CALLER[n] != want_caller:
+            hit("same-outcome", "%s:%s:%s:caller-%s" % (d, n, ctx, CALLER[n]), "calling task reported as %s" % CALLER[n], ctx_free=True)
+        if R[n][2] == {"RErr": [-30]}:
+            hit("same-outcome", "%s:%s:%s:AsyncTaskResult-escaped" % (d, n, ctx),
+                "%s raised AsyncTaskResult to its caller instead of returning the value" % n, ctx_free=True)
 
     accepted = {n: (R[n][1], R[n][2]) for n in FORMS if R[n][0] not in ("SNoAsynqAttr", "SNoAsyncFn")}
     # a value that is not what any body returns (e.g. a future handed back as the value)
@@ -331,7 +404,13 @@ def monitors(c, io, build):
                     v = {"VBody": [tag] + want_args + [EXTRA[bk] if tag == "FnBody" else 0]}
                     want_res = {"ROk": [{"VWrapped": [v]} if d == "DWrap" else v]}
                 if res != want_res:
-                    hit("same-outcome", "%s:%s:%s:outcome" % (d, b, n), "%s gave %s, the body's own outcome is %s" % (
+                    why = "outcome"
+                    if bk in OWN_CODES and not raising and tag == "FnBody":
+                        for code in OWN_CODES[bk][1:]:
+                            v2 = {"VBody": [tag] + want_args + [code]}
+                            if res == {"ROk": [{"VWrapped": [v2]} if d == "DWrap" else v2]}:
+                                why = "outcome:body-ran-%s" % ("in-another-task" if code == OWN_CODES[bk][1] else "outside-any-task")
+                    hit("same-outcome", "%s:%s:%s:%s" % (d, b, n, why), "%s gave %s, the body's own outcome is %s" % (
                         n, json.dumps(res), json.dumps(want_res)))
             if d == "DWrap":
                 wr = [x["CWrap"] for x in calls if isinstance(x, dict) and "CWrap" in x]
@@ -343,37 +422,40 @@ def monitors(c, io, build):
 
     # (3) the classification helpers agree with how the callable can actually be called (observed by
     #     the runner with arguments that bind: does the direct call hand back a future, is .asynq usable)
+    def hitc(clause, site, msg):        # asked and probed at top level: the same in every calling context
+        hit(clause, site, msg, ctx_free=True)
+
     def boolean(x, name):
         if x not in ("true", "false"):
-            hit("classify-consistent", "%s:%s:raised" % (d, name), "%s raised %s" % (name, json.dumps(x)))
+            hitc("classify-consistent", "%s:%s:raised" % (d, name), "%s raised %s" % (name, json.dumps(x)))
             return None
         return x == "true"
     ia, ip, ha = boolean(is_async, "is_async_fn"), boolean(is_pure, "is_pure_async_fn"), boolean(has_async, "has_async_fn")
     pd, pa = io["extra"]["probe_direct"], io["extra"]["probe_asynq"]
     if pd not in ("future", "value") or pa not in ("future", "absent"):
-        hit("classify-consistent", "%s:%s:probe:direct-%s:asynq-%s" % (d, b, pd.split(":")[0], pa.split(":")[0]),
+        hitc("classify-consistent", "%s:%s:probe:direct-%s:asynq-%s" % (d, b, pd.split(":")[0], pa.split(":")[0]),
             "with arguments that bind, the direct call %s and .asynq(...) %s" % (pd, pa))
     else:
         probe_future, probe_asynq = pd == "future", pa == "future"
         if probe_asynq != asynq_works:
-            hit("conventions-agree", "%s:%s:asynq-attribute-flickers" % (d, b), ".asynq present for one call and absent for another")
+            hitc("conventions-agree", "%s:%s:asynq-attribute-flickers" % (d, b), ".asynq present for one call and absent for another")
         if ha is not None and ha != probe_asynq:
-            hit("classify-consistent", "%s:has_async_fn:%s-but-asynq-%s" % (d, has_async, "works" if probe_asynq else "missing"),
+            hitc("classify-consistent", "%s:has_async_fn:%s-but-asynq-%s" % (d, has_async, "works" if probe_asynq else "missing"),
                 "has_async_fn is %s but .asynq is %s" % (has_async, "usable" if probe_asynq else "absent"))
         if ip is not None and ip != probe_future:
-            hit("classify-consistent", "%s:is_pure_async_fn:%s-but-call-returns-%s" % (d, is_pure, "future" if probe_future else "value"),
+            hitc("classify-consistent", "%s:is_pure_async_fn:%s-but-call-returns-%s" % (d, is_pure, "future" if probe_future else "value"),
                 "is_pure_async_fn is %s but the direct call returns a %s" % (is_pure, "future" if probe_future else "plain value"))
         callable_async = probe_asynq or probe_future
         if ia is not None and ia != callable_async:
-            hit("classify-consistent", "%s:is_async_fn:%s-but-%s" % (d, is_async, "async-callable" if callable_async else "not-async-callable"),
+            hitc("classify-consistent", "%s:is_async_fn:%s-but-%s" % (d, is_async, "async-callable" if callable_async else "not-async-callable"),
                 "is_async_fn is %s but the callable %s be called asynchronously" % (is_async, "can" if callable_async else "cannot"))
         want_gk = "GAsynqAttr" if probe_asynq else "GSelf" if probe_future else "GNone"
         if gk != want_gk:
-            hit("classify-consistent", "%s:get_async_fn:%s-instead-of-%s" % (d, gk, want_gk),
+            hitc("classify-consistent", "%s:get_async_fn:%s-instead-of-%s" % (d, gk, want_gk),
                 "get_async_fn returned %s, expected %s" % (gk, want_gk))
         want_hk = "GAsynqAttr" if probe_asynq else "GSelf"
         if hk != want_hk:
-            hit("classify-consistent", "%s:get_async_or_sync_fn:%s-instead-of-%s" % (d, hk, want_hk),
+            hitc("classify-consistent", "%s:get_async_or_sync_fn:%s-instead-of-%s" % (d, hk, want_hk),
                 "get_async_or_sync_fn returned %s, expected %s" % (hk, want_hk))
     callable_async = asynq_works or pd == "future"
     if callable_async and ref is not None:
@@ -390,21 +472,28 @@ def monitors(c, io, build):
 
 
 def shrink(c):
-    d, b, explicit, pos, kwl, bk = c["args"]
+    d, b, explicit, pos, kwl, bkt, ctx = c["args"]
+    bk, rs = bkt["BK"]
     kw = [tuple(x[""]) for x in kwl]
     ex = explicit == "true"
     seen = set()
 
-    def out(pos2, kw2, bk2, ex2=ex):
-        x = mk(d, b, ex2, pos2, kw2, bk2, {"pattern": "shrunk", "malformed": None, "stream": "shrunk"})
+    def out(pos2, kw2, bk2, ex2=ex, rs2=rs, ctx2=ctx):
+        x = mk(d, b, ex2, pos2, kw2, (bk2, rs2), {"pattern": "shrunk", "malformed": None, "stream": "shrunk"}, ctx2)
         k = canon(x)
         if k in seen or k == canon(c):
             return None
         seen.add(k)
         return x
     cands = []
-    if ex and pos == [1] and not kw and bk == "BPlain":
+    if ex and pos == [1] and not kw and bk == "BPlain" and rs == "RetReturn" and ctx == "CTop":
         return          # already the minimal call that binds
+    if ctx != "CTop":
+        cands.append(out(pos, kw, bk, ctx2="CTop"))
+        if ctx != "CGen":
+            cands.append(out(pos, kw, bk, ctx2="CGen"))
+    if rs != "RetReturn":
+        cands.append(out(pos, kw, bk, rs2="RetReturn"))
     if bk != "BPlain":
         cands.append(out(pos, kw, "BPlain"))
     if not ex:
